@@ -23,18 +23,18 @@ func EnumFeatureDisagreements(p *descriptorpb.FileDescriptorProto) []Expected {
 		return nil
 	}
 	fileClosed := false // editions 2023 and 2024 default to OPEN
-	if et := p.GetOptions().GetFeatures().EnumType; et != nil {
-		fileClosed = *et == descriptorpb.FeatureSet_CLOSED
+	if fs := p.GetOptions().GetFeatures(); fs != nil && fs.EnumType != nil {
+		fileClosed = fs.GetEnumType() == descriptorpb.FeatureSet_CLOSED
 	}
 	var out []Expected
 	var enums func(prefix string, es []*descriptorpb.EnumDescriptorProto)
 	enums = func(prefix string, es []*descriptorpb.EnumDescriptorProto) {
 		for _, e := range es {
-			et := e.GetOptions().GetFeatures().EnumType
-			if et == nil {
+			fs := e.GetOptions().GetFeatures()
+			if fs == nil || fs.EnumType == nil {
 				continue
 			}
-			own := *et == descriptorpb.FeatureSet_CLOSED
+			own := fs.GetEnumType() == descriptorpb.FeatureSet_CLOSED
 			if own != fileClosed {
 				out = append(out, Expected{Key: "enum " + join(prefix, e.GetName()) + "#IsClosed", Builder: fmt.Sprint(fileClosed), Protodesc: fmt.Sprint(own)})
 			}
@@ -120,4 +120,30 @@ func Describe(a, b Snap, keys []string) string {
 		s += fmt.Sprintf("; [%s] %s != %s", k, clip(av), clip(bv))
 	}
 	return s
+}
+
+// Hint estimates the number of snapshot entries of the file described by p (allocation hint for Opts.SizeHint).
+func Hint(p *descriptorpb.FileDescriptorProto) int {
+	n := 20
+	var enums func(es []*descriptorpb.EnumDescriptorProto)
+	enums = func(es []*descriptorpb.EnumDescriptorProto) {
+		for _, e := range es {
+			n += 13 + 9*len(e.Value)
+		}
+	}
+	var msgs func(ms []*descriptorpb.DescriptorProto)
+	msgs = func(ms []*descriptorpb.DescriptorProto) {
+		for _, m := range ms {
+			n += 16 + 35*(len(m.Field)+len(m.Extension)) + 10*len(m.OneofDecl)
+			enums(m.EnumType)
+			msgs(m.NestedType)
+		}
+	}
+	msgs(p.MessageType)
+	enums(p.EnumType)
+	n += 35 * len(p.Extension)
+	for _, s := range p.Service {
+		n += 9 + 12*len(s.Method)
+	}
+	return n
 }
